@@ -14,7 +14,7 @@ the source texts the reader accepts, assembling the parts
   `parseFileGH g h` = `UncheckedParse` (reader, then `canonFile g h`).
 * `pDeclsR rd`, `pFileR rd`, `parseFileR rd`: the reader of `dec_list` / `file`
   with the reader of `mem_gb` / `vmem_gb` a parameter (`pStageR rd`).
-  `pFileR readGBTok` is `pFile` (`Proofs.FormatFileRange.pFileR_exact`);
+  `pFileR readGBTok` is `pFile` (`pFileR_exact`, Proofs/FormatFileRange.lean);
   `parseFile32 = parseFileR readGB32Tok` reads the two values through the
   float32 rounding of the literal, as the REAL parser does (F29);
   `parseFile32GH g h` = the real `UncheckedParse`.
